@@ -146,7 +146,30 @@ func (p *Prog) ReadSequence(s *Sym, rp *RetPoint) []ReadItem {
 		}
 	}
 	sort.SliceStable(items, func(i, j int) bool { return dominates(items[i].Call, items[j].Call) })
-	return items
+	// ReadUintN(&n) followed by ReadBytes(&x, int(n)) on the same reader is the
+	// length-prefixed read ReadUintNLengthPrefixed(&x), spelled in two steps
+	var merged []ReadItem
+	for i := 0; i < len(items); i++ {
+		it := items[i]
+		if i+1 < len(items) && (it.Op == "u8" || it.Op == "u16" || it.Op == "u24") && strings.HasPrefix(it.Dst, "local:") {
+			nx := items[i+1]
+			if c, ok := it.Call.(*ssa.Call); ok && (nx.Op == "bytes" || nx.Op == "copybytes") && nx.Reader == it.Reader {
+				out := "out<1>(" + s.callTerm(c).String() + ")"
+				if nx.N == "conv<int>("+out+")" || nx.N == out {
+					m := nx
+					m.Op = "lp" + it.Op[1:]
+					m.N = ""
+					m.Checked = it.Checked && nx.Checked
+					m.Result = it.Result && nx.Result
+					merged = append(merged, m)
+					i++
+					continue
+				}
+			}
+		}
+		merged = append(merged, it)
+	}
+	return merged
 }
 
 func readSeqString(items []ReadItem) string {
